@@ -243,13 +243,30 @@ def tables(w, i):
     return h, d, c
 
 
+def _queue_handles(q):
+    """(connection handles the queue keeps per-connection state for, handles of its waiting packets), read from whatever
+    attributes hold them: per-connection state = int keys of its dicts, waiting packets = int members of the tuples in
+    its sequences."""
+    import collections
+
+    keys, members = set(), set()
+    for v in vars(q).values():
+        if isinstance(v, dict):
+            keys |= {k for k in v if isinstance(k, int)}
+        elif isinstance(v, (list, tuple, collections.deque)):
+            for item in v:
+                if isinstance(item, tuple):
+                    members |= {x for x in item if isinstance(x, int) and not isinstance(x, bool)}
+    return keys, members
+
+
 def queued_for_dead(w, i):
     """ACL queues of host i that hold waiting packets for a handle that is not a connection of that host."""
     out = []
     host = w.hosts[i]
     for qn in ('acl_packet_queue', 'le_acl_packet_queue'):
         q = getattr(host, qn, None)
-        if q is not None and any(h not in host.connections for _, h in q._packets):
+        if q is not None and any(h not in host.connections for h in _queue_handles(q)[1]):
             out.append(qn)
     return out
 
@@ -282,9 +299,10 @@ def registry_residue(w, i):
         q = getattr(dev.host, qn, None)
         if q is None:
             continue
-        if any(h not in live for h in q._connection_state):
+        keys, members = _queue_handles(q)
+        if any(h not in live for h in keys):
             out.append(f'host.{qn}._connection_state')
-        if any(h not in live for _, h in q._packets):
+        if any(h not in live for h in members):
             out.append(f'host.{qn}._packets')
     return out
 
